@@ -390,7 +390,7 @@ fn nat_of(b: &Big) -> Natural {
 pub fn meta() -> Meta {
     Meta {
         level: "exploration",
-        rule: "bounded exhaustive. sat_count: kinds {bdd,bcdd,zbdd}, n=3, all 6 orders, all 256 functions x vars in {3,4,63,64,73,127,128,1021,1024,1100} (zbdd: vars = number of manager variables; managers with 3, 73 and 1100 variables whose extra variables are don't-cares) x {Saturating<u64>, Saturating<u128>, F64, Natural} x cache_all in {off,on}, with a fresh cache per call and with one cache per number type reused across all handles (vars outer / vars inner / reverse order + no-op gc), across drop+gc+creation of a different function for all 256 x 256 pairs (t1,t2), across drop+gc+set_var_order to each of the 6 orders on a manager without live handles; thorough: n=4 all 65536 functions under all 24 orders (shared cache, rolling drop/gc, fresh cache). Natural: boundary operand set B (0..3, 2^k-1, 2^k, 2^k+1 for k in {31,32,63,64,65,127,128,129,191,192,255,256}, (2^64+1)*2^j, carry-chain patterns, shifted variants): all ordered pairs for +, ==, partial_cmp, all ordered triples for sums, all (b,s) for <<, >> with s in S (u32 and u64 amounts incl. exponent overflow), From<u8..u128>, from_le_digits, clone/clone_from, hash, bit_width, TryFrom to u64/u128, f64 conversion on a rounding-boundary family, Display/Binary/Octal/LowerHex/UpperHex under 24 flag templates x 9 widths. A sat_count case is non-trivial when the function is not constant; a Natural case is non-trivial when all operands are non-zero; every enumerated tuple is distinct.",
+        rule: "bounded exhaustive. sat_count: kinds {bdd,bcdd,zbdd}, n=3, all 6 orders, all 256 functions x vars in {3,4,63,64,73,127,128,1021,1024,1100} (zbdd: vars = number of manager variables; managers with 3, 73 and 1100 variables whose extra variables are don't-cares) x {Saturating<u64>, Saturating<u128>, F64, Natural} x cache_all in {off,on}, with a fresh cache per call and with one cache per number type reused across all handles (vars outer / vars inner / reverse order + no-op gc), across drop+gc+creation of a different function for all 256 x 256 pairs (t1,t2), across drop+gc+set_var_order to each of the 6 orders on a manager without live handles; enumerated cache histories: every sequence of length 5 (thorough 6) over 8 actions {query(f0|f1, vars 3|4), gc, rebuild f1 in recycled slots, toggle cache_all, reorder(rotate) with all handles alive followed by new helper functions that recycle the freed slots} on one cache per number type, every query checked; thorough: n=4 all 65536 functions under all 24 orders (shared cache, rolling drop/gc, fresh cache). Natural: boundary operand set B (0..3, 2^k-1, 2^k, 2^k+1 for k in {31,32,63,64,65,127,128,129,191,192,255,256}, (2^64+1)*2^j, carry-chain patterns, shifted variants): all ordered pairs for +, ==, partial_cmp, all ordered triples for sums, all (b,s) for <<, >> with s in S (u32 and u64 amounts incl. exponent overflow), From<u8..u128>, from_le_digits, clone/clone_from, hash, bit_width, TryFrom to u64/u128, f64 conversion on a rounding-boundary family, Display/Binary/Octal/LowerHex/UpperHex under 24 flag templates x 9 widths. A sat_count case is non-trivial when the function is not constant; a Natural case is non-trivial when all operands are non-zero; every enumerated tuple is distinct.",
         assumptions: vec![
             "operands are built through DiagramRules::reduce + then_insert, not through apply operators".into(),
             "ZBDD: sat_count is only called with vars = number of manager variables (the only value for which the Boolean-function reading of a ZBDD is defined); a change of vars is therefore not exercised for ZBDDs".into(),
@@ -1796,7 +1796,7 @@ fn hist_count<K: BoolKind, N: NumT>(ctx: &mut Ctx, env: &Env, f: &K::F, t: Tab, 
     }
 }
 
-const CH_NAMES: [&str; 7] = ["q(f0,v1)", "q(f0,v2)", "q(f1,v1)", "q(f1,v2)", "gc", "rebuild f1", "toggle cache_all"];
+const CH_NAMES: [&str; 8] = ["q(f0,v1)", "q(f0,v2)", "q(f1,v1)", "q(f1,v2)", "gc", "rebuild f1", "toggle cache_all", "reorder(rotate) + new helper functions"];
 
 fn run_cache_hist<K: BoolKind>(ctx: &mut Ctx, order: &[u32]) {
     let n = 3u32;
@@ -1806,7 +1806,7 @@ fn run_cache_hist<K: BoolKind>(ctx: &mut Ctx, order: &[u32]) {
     let env = Env { kind: K::NAME, n, order: model::order_str(&order), mgr_vars: n, layout: "plain" };
     // ZBDD: vars must be the number of manager variables, so only one variable count
     let (v1, v2) = if zbdd { (3, 3) } else { (3, 4) };
-    let na = 7usize;
+    let na = 8usize;
     for first in 0..na {
         ctx.group(&format!("cache histories first action {first}"), |ctx| {
             let total = na.pow(depth as u32 - 1);
@@ -1829,8 +1829,20 @@ fn run_cache_hist<K: BoolKind>(ctx: &mut Ctx, order: &[u32]) {
                 let mut c64: Cache<Saturating<u64>> = Cache::default();
                 let mut cnat: Cache<Natural> = Cache::default();
                 let mut cf: Cache<F64> = Cache::default();
+                let mut cur_order = order.clone();
+                let mut reorders = 0usize;
                 for (i, &a) in acts.iter().enumerate() {
                     match a {
+                        7 => {
+                            // level swaps free nodes and create others (often as many: the node count is
+                            // unchanged); the helper functions built afterwards recycle the freed slots
+                            cur_order.rotate_left(1);
+                            K::set_order(&mref, &cur_order);
+                            let helpers: [u64; 2] = [[0x3c, 0xa0], [0x5a, 0xc0], [0x12, 0x7e]][reorders % 3];
+                            reorders += 1;
+                            keep.push(K::build(&mref, helpers[0]).unwrap());
+                            keep.push(K::build(&mref, helpers[1]).unwrap());
+                        }
                         0..=3 => {
                             let fi = a / 2;
                             let vars = if a % 2 == 0 { v1 } else { v2 };
